@@ -310,6 +310,12 @@ def main(argv: list[str]) -> int:
     except BaseException as e:  # noqa: BLE001
         res = {"verdict": "ERROR", "detail": f"{type(e).__name__}: {e}", "traceback": traceback.format_exc()[-4000:]}
     res["name"] = name
+    cm = sys.modules.get("engine.coop")
+    if cm is not None:
+        try:
+            res["coop_stats"] = {"runs": cm.STATS["runs"], "transitions": cm.STATS["transitions"], "states": len(cm.STATS["states"]), "real_replays": cm.STATS["real_replays"], "real_replays_agree": cm.STATS["real_replays_agree"]}
+        except Exception:  # noqa: BLE001
+            pass
     res["wall_s"] = round(time.monotonic() - t0, 3)
     with open(outpath, "w") as f:
         json.dump(res, f, indent=1, default=repr)
